@@ -250,9 +250,16 @@ def adjudicate(module_name, unit_name, n, seed=0, want=None):
     evals = 0
     for i in range(n):
         model = {}
+        drawn = {}      # declared range -> values drawn so far: equalities between inputs of one kind (tags, register
+        #                 numbers, addresses) are what most contracts branch on, independent draws practically never hit them
         for name, d in decls.items():
             if d[0] == "int":
-                model[name] = _sample_int(rnd, d[1], d[2])
+                pool = drawn.setdefault((d[1], d[2]), [])
+                if pool and rnd.random() < 0.3:
+                    model[name] = rnd.choice(pool)
+                else:
+                    model[name] = _sample_int(rnd, d[1], d[2])
+                pool.append(model[name])
             elif d[0] == "bool":
                 model[name] = rnd.random() < 0.5
             elif d[0] == "list":
